@@ -776,6 +776,9 @@ func RunOnce(prefix []int, body func(), opt Options) *Outcome {
 			}
 			s.points = append(s.points, p)
 		}
+		if debug {
+			fmt.Fprintf(os.Stderr, "step %d now=%v alts=%d: %s\n", s.steps, s.now, len(en), s.label(en[choice]))
+		}
 		t := s.apply(en[choice])
 		s.steps++
 		if s.steps > opt.Horizon {
